@@ -811,6 +811,42 @@ func TestVerifC19Rules(t *testing.T) {
 		}
 	}
 
+	// two type confusions inside the same step: which check comes first decides between rejection and panic
+	for bi, base := range bases {
+		rules, _ := base.(map[string]any)["rules"].([]any)
+		for ri, rr := range rules {
+			for _, list := range []string{"execute", "on_error"} {
+				steps, _ := rr.(map[string]any)[list].([]any)
+				for si, st := range steps {
+					var kindKey string
+
+					for _, k := range []string{"authenticator", "authorizer", "contextualizer", "finalizer", "error_handler"} {
+						if _, ok := st.(map[string]any)[k]; ok {
+							kindKey = k
+						}
+					}
+
+					p := []any{"rules", ri, list, si}
+					for ci, combo := range [][2][2]any{
+						{{kindKey, 42}, {"if", 42}}, {{kindKey, 42}, {"if", ""}}, {{kindKey, []any{"a"}}, {"if", "1 +"}},
+						{{kindKey, 42}, {"config", "x"}}, {{"if", 42}, {"config", 7}}, {{"if", "1 +"}, {"config", []any{}}},
+						{{kindKey, nil}, {"config", map[any]any{1: 2}}}, {{kindKey, "nope"}, {"config", "x"}},
+						{{kindKey, "nope"}, {"if", 42}}, {{"finalizer", 42}, {"authorizer", 42}},
+					} {
+						tree := c19Clone(base)
+						for _, kv := range combo {
+							tree = c19Set(tree, append(append([]any{}, p...), kv[0]), kv[1])
+						}
+
+						if text, ok := c19Marshal(tree); ok {
+							add(bi, fmt.Sprint(p, " pair-kind", ci), text)
+						}
+					}
+				}
+			}
+		}
+	}
+
 	// truncation of the text at every offset
 	for bi, b := range c19Bases {
 		step := 1
